@@ -77,6 +77,54 @@ theorem decides_valueIn (o) (e : View) (d) (hd : documented (.valueIn o) e = som
   | false => exact decides_fail _ _ "fail" [] (by simp [verdict, this, h])
   | true => exact decides_pass _ _ (by simp [verdict, this, h])
 
+theorem isPrefixOf_eq_take (s l : Str) : s.isPrefixOf l = (l.take s.length == s) := by
+  induction s generalizing l with
+  | nil => simp
+  | cons a as ih =>
+    cases l with
+    | nil => simp [List.isPrefixOf]
+    | cons b bs =>
+      simp only [List.isPrefixOf, List.length_cons, List.take_succ_cons, ih bs]
+      by_cases hab : a = b
+      · subst hab; simp
+      · have : (a == b) = false := by simpa using hab
+        have h2 : ¬ b = a := fun h => hab h.symm
+        simp [this, h2]
+
+theorem any_range_succ (n : Nat) (f : Nat → Bool) :
+    (List.range (n + 1)).any f = (f 0 || (List.range n).any (fun i => f (i + 1))) := by
+  rw [List.range_succ_eq_map]
+  simp [List.any_map, Function.comp_def]
+
+/-- the substring scan = "occurs at some offset" -/
+theorem infixOf_eq (s c : Str) :
+    infixOf s c = (List.range (c.length + 1)).any (fun i => (c.drop i).take s.length == s) := by
+  induction c with
+  | nil =>
+    cases s <;> simp [infixOf]
+  | cons x xs ih =>
+    rw [infixOf, ih, isPrefixOf_eq_take]
+    rw [show (x :: xs).length + 1 = (xs.length + 1) + 1 from rfl, any_range_succ (xs.length + 1)]
+    simp
+
+theorem decides_valueInText (c) (e : View) (d) (hd : documented (.valueInText c) e = some d) :
+    Decides (.valueInText c) e d := by
+  simp only [documented] at hd
+  cases hv : e.value with
+  | str s =>
+    rw [hv] at hd
+    simp only [Option.some.injEq] at hd
+    subst hd
+    rw [← infixOf_eq]
+    cases h : infixOf s c with
+    | true => exact decides_pass _ _ (by simp [verdict, hv, h])
+    | false => exact decides_fail _ _ "fail" [] (by simp [verdict, hv, h])
+  | none => rw [hv] at hd; cases hd; exact decides_fail _ _ "fail" [] (by simp [verdict, hv])
+  | int i => rw [hv] at hd; cases hd; exact decides_fail _ _ "fail" [] (by simp [verdict, hv])
+  | bool b => rw [hv] at hd; cases hd; exact decides_fail _ _ "fail" [] (by simp [verdict, hv])
+  | elem u => rw [hv] at hd; cases hd; exact decides_fail _ _ "fail" [] (by simp [verdict, hv])
+  | method o n => rw [hv] at hd; cases hd; exact decides_fail _ _ "fail" [] (by simp [verdict, hv])
+
 theorem decides_shorterThan (m) (e : View) (d) (hd : documented (.shorterThan m) e = some d) :
     Decides (.shorterThan m) e d := by
   simp only [documented, Option.some.injEq] at hd
@@ -732,6 +780,7 @@ theorem decides (v : V) (e : View) (d : Bool) (hd : documented v e = some d) : D
   | isFalse => exact decides_isFalse e d hd
   | converted => exact decides_converted e d hd
   | valueIn o => exact decides_valueIn o e d hd
+  | valueInText c => exact decides_valueInText c e d hd
   | shorterThan m => exact decides_shorterThan m e d hd
   | longerThan m => exact decides_longerThan m e d hd
   | lengthBetween a b => exact decides_lengthBetween a b e d hd
